@@ -455,7 +455,7 @@ void LegalizationParameters::check() const {
   if (costModel != LegalizationModel::L1) {
     throw std::runtime_error("Only L1 legalization model is supported");
   }
-  if (orderingWidth > 2.0 || orderingWidth < -1.0) {
+  if (orderingWidth > 1.0 || orderingWidth < 0.0) {
     throw std::runtime_error(
         "Legalization ordering width should be small (0 < ... < 1)");
   }
